@@ -65,14 +65,26 @@ package bitmap
 //@     u128(a.containing.Mask) == cidr128(plen(a)) && aligned(u128(a.containing.IP), plen(a)) && \
 //@     blen(a.bitmap) == uint(1) << uint(a.page - plen(a)) && \
 //@     (forall i uint: i >= blen(a.bitmap) ==> !bits(a.bitmap)[i])
+// The index/block arithmetic is OPAQUE outside the three helpers that implement it
+// (toIndex, toPrefix, contains) and the geometry lemma: callers reason with the
+// helpers' contracts only, which keeps their verification conditions free of
+// 128-bit shifts by a symbolic amount.
+//@ opaque pure func idxx(base bv128, page int, x bv128) uint = uint(trunc(64, (x - base) >> (128 - page)))
+//@ opaque pure func blockx(base bv128, page int, i uint) bv128 = base + (zext(128, i) << (128 - page))
+//@ opaque pure func alignedx(x bv128, page int) bool = aligned(x, page)
 //@ pure func inpool6(a *Allocator, x bv128) bool = (x & u128(a.containing.Mask)) == u128(a.containing.IP)
-//@ pure func idx6(a *Allocator, x bv128) uint = uint(trunc(64, (x - u128(a.containing.IP)) >> (128 - a.page)))
-//@ pure func block6(a *Allocator, i uint) bv128 = u128(a.containing.IP) + (zext(128, i) << (128 - a.page))
+//@ pure func idx6(a *Allocator, x bv128) uint = idxx(u128(a.containing.IP), a.page, x)
+//@ pure func block6(a *Allocator, i uint) bv128 = blockx(u128(a.containing.IP), a.page, i)
 //@ pure func hintlen6(a *Allocator, m net.IPMask) int = \
 //@     ite(len(m) == 16 && canon128(u128(m)) && ones128(u128(m)) >= a.page, ones128(u128(m)), a.page)
 // the 128-bit value a hint names: 16-byte form as is, 4-byte form as its IPv4-mapped address
 //@ pure func hint128(ip net.IP) bv128 = ite(len(ip) == 16, u128(ip), zext(128, u32be(ip)) | bv(128, 281470681743360))
 //@ pure func hintok(ip net.IP) bool = len(ip) == 16 || len(ip) == 4
+
+//@ func (*Allocator).contains
+//@   requires wf6(a)
+//@   modifies nothing
+//@   ensures ret <==> (len(ip) == 16 && inpool6(a, u128(ip)))
 
 // toIndex is total on 16-byte addresses that are at or above the pool base, or page-aligned
 // below it (where allocators.Offset is specified): the absolute block distance to the base.
@@ -84,13 +96,15 @@ package bitmap
 //@   ensures err == nil ==> zext(128, ret) == blockdist(u128(base), u128(a.containing.IP), a.page)
 //@   ensures inpool6(a, u128(base)) ==> (err == nil && ret == idx6(a, u128(base)) && ret < blen(a.bitmap))
 //@   ensures (!inpool6(a, u128(base)) && u128(base) >= u128(a.containing.IP)) ==> (err != nil || ret >= blen(a.bitmap))
+//@   reveal idxx
 //@   split a.page 0..128
 
 //@ func (*Allocator).toPrefix
 //@   requires wf6(a) && idx < blen(a.bitmap)
 //@   modifies nothing
 //@   ensures ret1 == nil && len(ret0) == 16 && u128(ret0) == block6(a, idx)
-//@   ensures inpool6(a, u128(ret0)) && idx6(a, u128(ret0)) == idx && aligned(u128(ret0), a.page)
+//@   ensures inpool6(a, u128(ret0)) && idx6(a, u128(ret0)) == idx && alignedx(u128(ret0), a.page)
+//@   reveal idxx, blockx, alignedx
 //@   split a.page 0..128
 
 //@ func (*Allocator).Allocate
@@ -99,7 +113,7 @@ package bitmap
 //@   ensures wf6(a) && !held(a.l)
 //@   ensures[C05:fails-iff-full] (err != nil) <==> (forall i uint in 0..blen(a.bitmap): old(bits(a.bitmap))[i])
 //@   ensures[C05:failure-changes-nothing] err != nil ==> (err == allocators.ErrNoAddrAvail && bits(a.bitmap) == old(bits(a.bitmap)))
-//@   ensures[C04,C05:in-pool-aligned-and-was-free] err == nil ==> (len(ret.IP) == 16 && inpool6(a, u128(ret.IP)) && aligned(u128(ret.IP), a.page) && \
+//@   ensures[C04,C05:in-pool-aligned-and-was-free] err == nil ==> (len(ret.IP) == 16 && inpool6(a, u128(ret.IP)) && alignedx(u128(ret.IP), a.page) && \
 //@       idx6(a, u128(ret.IP)) < blen(a.bitmap) && u128(ret.IP) == block6(a, idx6(a, u128(ret.IP))) && \
 //@       !old(bits(a.bitmap))[idx6(a, u128(ret.IP))] && \
 //@       bits(a.bitmap) == upd(old(bits(a.bitmap)), idx6(a, u128(ret.IP)), true))
@@ -131,6 +145,15 @@ package bitmap
 
 // Geometry of the pool (C04/C05): distinct indices below the pool size are distinct,
 // in-pool, page-aligned blocks that do not overlap.
+// The opaque functions are exactly the block arithmetic of C20 (Offset / AddPrefixes).
+//@ lemma v6_opaque_defs(base bv128, page int, i uint, x bv128)
+//@   requires 0 <= page && page <= 128 && x >= base
+//@   reveal idxx, blockx, alignedx
+//@   ensures[C05:opaque-defs] zext(192, blockx(base, page, i)) == nthblock(base, i, uint64(page)) || nthblock(base, i, uint64(page)) >= (bv(192, 1) << 128)
+//@   ensures[C05:opaque-defs] zext(128, idxx(base, page, x)) == blockdist(x, base, page) || blockdist(x, base, page) >= (bv(128, 1) << 64)
+//@   ensures[C05:opaque-defs] alignedx(x, page) <==> aligned(x, page)
+//@   split page 0..128
+
 //@ lemma v6_blocks(base bv128, L int, page int, i uint64, j uint64)
 //@   requires 0 <= L && L <= page && page <= 128 && page - L < 64 && aligned(base, L)
 //@   requires i < (uint64(1) << uint64(page - L)) && j < (uint64(1) << uint64(page - L)) && i != j
